@@ -725,6 +725,19 @@ func getReferenceModificationsFromSet(dbModel *model.DatabaseModel, table, uuid,
 			refs[spec][to.GoUUID] = append(refs[spec][to.GoUUID], from)
 		}
 	}
+
+	// an optional value is replaced rather than modified with a difference,
+	// so when one value replaces another the old one is no longer referenced
+	extendedType, _, _, _ := refInfo(dbModel, table, column, false)
+	if extendedType == ovsdb.TypeUUID && len(modify.GoSet) > 0 && len(old.GoSet) > 0 {
+		for _, v := range old.GoSet {
+			if to, ok := v.(ovsdb.UUID); ok {
+				if _, ok := refs[spec][to.GoUUID]; !ok {
+					refs[spec][to.GoUUID] = []string{from}
+				}
+			}
+		}
+	}
 	return refs
 }
 
